@@ -93,6 +93,18 @@ def rand_config(rnd, *, grad_scale=1.0, precond_kind=None, grafting_kind=None, a
         "param_dtype": pd,
         "precond": pc,
     }
+    if rnd.random() < 0.08 and beta1 > 0:
+        # class in which the search direction aliases optimizer state unless it is copied: no bias correction, beta3 == beta1 and an
+        # identity preconditioner (SGD grafting in the warm-up / every dimension ignored)
+        cfg["use_bias_correction"] = False
+        cfg["beta3"] = -1.0
+        if rnd.random() < 0.5 or not allow_ignored or cfg["inv_root_override"] != 0:
+            cfg["grafting"] = {"type": "sgd"}
+            if cfg["start_preconditioning_step"] in (-1, 1):
+                cfg["start_preconditioning_step"] = freq + 3
+        else:
+            cfg["precond"]["ignored_dims"] = [0, 1, 2, 3]
+            cfg["inv_root_override"] = 0
     return cfg
 
 
